@@ -24,7 +24,7 @@ PLAN = {
         'inv': ['ConnAgree', 'C03_Recipients', 'C03_RoomsListing',
                 'C03_NoGhostsOfTheDeparted'],
         'quick': ['rooms_quick'],
-        'thorough': ['rooms_quick', 'rooms3', 'rooms'],
+        'thorough': ['rooms_quick', 'rooms3'],
         # (config, histories quick, histories thorough, max length)
         'walks': [('rooms_big', 60, 1500, 60)],
         'walk_inv': ['ConnAgree', 'C03_RoomsListing',
@@ -42,8 +42,8 @@ PLAN = {
     'C05': {
         'inv': ['ConnAgree', 'C05_EventDispatch', 'C05_BinaryEventDispatch'],
         'quick': ['events_quick', 'events_quick_bg'],
-        'thorough': ['events_inl_fn', 'events_inl_class', 'events_bg_fn',
-                     'events_bg_class', 'events_mp_quick'],
+        'thorough': ['events_quick', 'events_quick_bg', 'events_mp_quick',
+                     'events_t_fn', 'events_t_class_bg'],
     },
     'C06': {
         'inv': ['ConnAgree', 'C06_IssuedIdUnique', 'C06_AckOutcome',
@@ -51,27 +51,27 @@ PLAN = {
         'walks': [('acks_big', 40, 1000, 60), ('calls_big', 20, 400, 40)],
         'walk_inv': ['ConnAgree', 'C06_IssuedMatchesCore'],
         'quick': ['acks_quick', 'calls_quick', 'calls_inline'],
-        'thorough': ['acks_quick', 'acks', 'acks_mp_quick', 'calls_quick',
-                     'calls_inline', 'calls'],
+        'thorough': ['acks_quick', 'acks_t', 'acks_mp_quick', 'calls_quick',
+                     'calls_inline', 'calls_t'],
     },
     'C11': {
         'inv': ['C11_NoResidue', 'C11_FreshWhenEmpty'],
         'walks': [('residue_big', 40, 1000, 60)],
         'walk_inv': ['C11_NoResidue', 'C11_FreshWhenEmpty'],
         'quick': ['residue_quick'],
-        'thorough': ['residue_quick', 'residue'],
+        'thorough': ['residue_quick', 'residue_t'],
     },
     'C12': {
         'inv': ['C12_Isolation'],
         'quick': ['hostile_quick', 'hostile_mp_quick'],
-        'thorough': ['hostile_quick', 'hostile_mp_quick', 'hostile'],
+        'thorough': ['hostile_quick', 'hostile_mp_quick', 'hostile_t'],
     },
     'C16': {
         'inv': ['ConnAgree', 'C16_SessionIsolation'],
         'walks': [('sessions_big', 40, 1000, 60)],
         'walk_inv': ['ConnAgree'],
         'quick': ['sessions_quick', 'sessions_quick_b'],
-        'thorough': ['sessions_quick', 'sessions_quick_b', 'sessions'],
+        'thorough': ['sessions_quick', 'sessions_quick_b', 'sessions_t'],
     },
 }
 
@@ -163,8 +163,7 @@ PLAN.update({
                      'ps_cb_quick', 'ps_delay_rooms_quick',
                      'ps_imm_cb_quick', 'ps_list_quick', 'ps_cb_disc_quick',
                      'ps_cb3',
-                     'ps_delay_chan3',
-                     'ps_delay3', 'ps_imm3'],
+                     'ps_delay_chan3'],
     },
     'C15': {
         'fam': 'pubsub',
